@@ -141,7 +141,13 @@ class History(c01.History):
         toks = [c01.tok_from_json(j) for j in s["tokens"]]
         spec = dl.spec_spelling(toks)
         meanings = [t.meaning() for t in toks]
-        ann = ga.category(s["cat"])[ga.array_type(s["at"]), spec]
+        if s.get("nest"):
+            # the same check spelled as a nested annotation: outer spec = first k tokens, inner spec = the rest
+            k = s["nest"]
+            inner = ga.category(s["cat"])[ga.array_type(s["at"]), dl.spec_spelling(toks[k:])]
+            ann = ga.category(s["cat"])[inner, dl.spec_spelling(toks[:k])]
+        else:
+            ann = ga.category(s["cat"])[ga.array_type(s["at"]), spec]
         value = ga.make_value(s["vk"], s["shape"], s["dtype"])
         from vf.models import dtypes as dt
 
@@ -299,6 +305,8 @@ def draw_step(data, hist: History):
         cat, at, vk, dn, _, _ = data.draw(ga.typed_value_plan(mismatch_prob=0.05))
         shape, _ = data.draw(gd.shape_for(meanings, m, mutate_prob=0.6))
         s.update(cat=cat, at=at, vk=vk, dtype=dn, shape=list(shape))
+        if len(toks) >= 2 and at != "any" and data.draw(st.integers(0, 3)) == 0:
+            s["nest"] = data.draw(st.integers(1, len(toks) - 1))
     elif kind == "raise-sym":
         pos = data.draw(st.integers(0, len(toks)))
         full = list(meanings)
@@ -320,6 +328,18 @@ def draw_step(data, hist: History):
             s["structure"] = f"{a} {b}"
         # '?' axes are only meaningful under a structure name: C16's subject; keep them out here
         s["tree"] = draw_tree(data, meanings, m)
+        if data.draw(st.integers(0, 5)) == 0:
+            # template: a broadcastable variadic that an early leaf *widens* (overwrites an existing binding) before a
+            # later leaf fails -- the only way a passing sub-check changes the value of an existing binding
+            vn = data.draw(st.sampled_from(gd.VNAMES))
+            wt = [dl.Token(data.draw(st.sampled_from(["*#", "#*"])), "name", vn)]
+            s["tokens"] = [c01.tok_json(t) for t in wt]
+            prev = m.variadic.get(vn)
+            base = list(prev[1]) if prev is not None and prev[0] else [1, 3]
+            wide = [data.draw(st.sampled_from([2, 4, 5])) if x == 1 else x for x in base] if 1 in base else [2] + base
+            bad = base[:-1] + [base[-1] + 1] if base and base[-1] not in (1,) else base + [7, 7, 7]
+            leaves = ([base] if prev is None else []) + [wide, bad if data.draw(st.integers(0, 3)) else wide]
+            s["tree"] = gt.to_json(("tuple", [("leaf", l) for l in leaves]))
         # a composite over bound names: half of the time build the matching composed tree instead
         if sk == "composite":
             ps = s["structure"].split()
@@ -357,10 +377,10 @@ def in_context(use_args, body):
     if use_args:
 
         @jaxtyped(typechecker=None)
-        def f(hn, hm, hobj, hboom):
+        def f(hn, hm, hobj, hboom, n, a):
             return body()
 
-        return f(gd.HOLE_ARGS["hn"], gd.HOLE_ARGS["hm"], c01.HObj, hboom)
+        return f(gd.HOLE_ARGS["hn"], gd.HOLE_ARGS["hm"], c01.HObj, hboom, gd.HOLE_ARGS["n"], gd.HOLE_ARGS["a"])
     with jaxtyped("context"):
         return body()
 
